@@ -9,7 +9,12 @@
    the hashed value, hash-map iteration order is an arbitrary permutation (Section variable).
    File contents are modelled at the level of characters plus a flag: `Torn t` is a file whose bytes are
    the UTF-8 encoding of t followed by an incomplete multi-byte sequence (only a crash can produce it);
-   tokio's read_to_string fails on it with InvalidData. *)
+   tokio's read_to_string fails on it with InvalidData.
+   State of the code modelled: /repo after the fix commits 87b8642 (save_dict = temporary sibling + flush +
+   sync_all + rename), ebb53b3 (contains_exact_word compares normalised spellings), f2dc537 (child hash =
+   sum of per-word hashes), ba0a239 (import_words re-synchronises whenever the dictionary changed).
+   The definitions named `..._old` are the code BEFORE those commits; they are kept only for the
+   regression witnesses (`C07_*_old_refuted`) and are not part of the extracted model. *)
 Require Import Base.
 From Coq Require Import Permutation.
 
@@ -80,6 +85,18 @@ Fixpoint insert (k : word) (e : entry) (d : dict) : dict :=
   | (k', e') :: t => if weqb k k' then (k, e) :: t else (k', e') :: insert k e t
   end.
 
+(* multiset equality of two word lists (decides Permutation: DictIOProofs.perm_ofb_spec) *)
+Fixpoint remove_one (w : word) (l : list word) : option (list word) :=
+  match l with
+  | [] => None
+  | x :: r => if weqb w x then Some r else match remove_one w r with Some r' => Some (x :: r') | None => None end
+  end.
+Fixpoint perm_ofb (a b : list word) : bool :=
+  match a with
+  | [] => match b with [] => true | _ => false end
+  | x :: a' => match remove_one x b with Some b' => perm_ofb a' b' | None => false end
+  end.
+
 Section Model.
   Variable is_lower : N -> bool.              (* char::is_lowercase *)
   Variable lower : N -> list N.               (* char::to_lowercase *)
@@ -101,20 +118,25 @@ Section Model.
   Definition words_of (d : dict) : list word := map (fun kv => fst (snd kv)) d.
   Definition words_iter (d : dict) : list word := iter_order (words_of d).
 
-  (* MergedDictionary::hash_dictionary: the characters of every word, in iteration order, WITHOUT a
-     separator, fed to the hasher (modelled as the identity); update_document rebuilds the linter of an
-     open document when the list of child hashes differs *)
-  Definition child_stream (d : dict) : list N := concat (words_iter d).
+  (* MergedDictionary::hash_dictionary: hash_one of every word on its own, the hashes added up
+     (wrapping_add).  hash_one is modelled as the identity and the sum as the MULTISET of the words hashed
+     (no collisions): two children have the same hash iff their word lists are permutations of each other.
+     update_document rebuilds the linter of an open document when the list of child hashes differs. *)
+  Definition child_words (d : dict) : list word := words_iter d.
+  Definition child_hash_eqb (a b : list word) : bool := perm_ofb a b.
+  (* before f2dc537: the characters of every word, in iteration order, WITHOUT a separator, fed to one hasher *)
+  Definition child_stream_old (d : dict) : list N := concat (words_iter d).
 
   (* dict_from_word_list *)
   Definition dict_from_word_list (t : text) : dict := extend_words [] (lines t).
 
   (* MutableDictionary::get_word_metadata / contains_exact_word *)
   Definition get_meta (d : dict) (w : word) : option entry := lookup (word_id w) d.
+  (* the stored spelling is compared in normalised form too (ebb53b3) *)
   Definition contains_exact_word (d : dict) (w : word) : bool :=
     let n := normalized w in
     match lookup (word_id n) d with
-    | Some e => weqb (fst e) n
+    | Some e => weqb (normalized (fst e)) n
     | None => false
     end.
 
@@ -143,6 +165,7 @@ Section Model.
 
   (* the user dictionary, the dictionary of one file (named by file_dict_name), a temporary sibling *)
   Inductive path := UserP | FileP (name : list N) | TmpP (p : path).
+  Definition is_tmp (p : path) : bool := match p with TmpP _ => true | _ => false end.
   Inductive dpath := DUser | DFile.
   Fixpoint parent (p : path) : dpath :=
     match p with UserP => DUser | FileP _ => DFile | TmpP q => parent q end.
@@ -200,7 +223,9 @@ Section Model.
   | ECreate (p : path)                 (* File::create: O_CREAT|O_TRUNC; needs the parent directory *)
   | EWrite (p : path) (b : text)       (* write_all into the BufWriter *)
   | EFlush (p : path)                  (* BufWriter::flush: everything handed over is in the file *)
-  | ERename (a b : path).              (* fs::rename: atomic replacement (only in the proposed fix) *)
+  | ESync (p : path)                   (* File::sync_all: nothing changes for a process crash (the bytes are already
+                                          in the file as other processes see it) *)
+  | ERename (a b : path).              (* fs::rename: atomic replacement *)
 
   Definition sstate := (fsys * text)%type.          (* (disk, pending bytes of the open file) *)
 
@@ -219,6 +244,7 @@ Section Model.
     | ECreate p => if has_dir (parent p) s then Some (fs_write p (Clean []) s, []) else None
     | EWrite _ b => Some (s, buf ++ b)
     | EFlush p => Some (fs_write p (app_content (fs_read p s) buf) s, [])
+    | ESync _ => Some (s, buf)
     | ERename a b =>
         match fs_read a s with
         | Some c => Some (mkfs (dirs s) (assoc_set b c (assoc_del a (files s))), buf)
@@ -268,20 +294,20 @@ Section Model.
     | e :: r => match step st e with Some st' => run_effects st' r | None => st end
     end.
 
-  (* save_dict as written *)
+  (* write_word_list *)
   Definition write_effects (p : path) (ws : list word) : list effect :=
     flat_map (fun w => [EWrite p w; EWrite p [LF]]) ws.
-  Definition save_effects (p : path) (ws : list word) : list effect :=
+  (* save_dict BEFORE 87b8642: create_dir_all; File::create(path) (truncates); write_word_list; flush *)
+  Definition save_effects_old (p : path) (ws : list word) : list effect :=
     EMkdir (parent p) :: ECreate p :: write_effects p ws ++ [EFlush p].
+  (* save_dict as written now: create_dir_all(parent); File::create(<name>.tmp); write_word_list; flush;
+     sync_all; drop; rename(<name>.tmp, path) *)
+  Definition save_effects (p : path) (ws : list word) : list effect :=
+    EMkdir (parent p) :: ECreate (TmpP p) :: write_effects (TmpP p) ws
+      ++ [EFlush (TmpP p); ESync (TmpP p); ERename (TmpP p) p].
   Definition save_words (p : path) (ws : list word) (s : fsys) : fsys :=
     fst (run_effects (s, []) (save_effects p ws)).
   Definition save_dict (p : path) (d : dict) (s : fsys) : fsys := save_words p (words_iter d) s.
-
-  (* the proposed repair (fixes/F14.diff): write a temporary sibling, flush, rename over the target *)
-  Definition atomic_save_effects (p : path) (ws : list word) : list effect :=
-    EMkdir (parent p) :: ECreate (TmpP p) :: write_effects (TmpP p) ws ++ [EFlush (TmpP p); ERename (TmpP p) p].
-  Definition atomic_save_words (p : path) (ws : list word) (s : fsys) : fsys :=
-    fst (run_effects (s, []) (atomic_save_effects p ws)).
 
   (* -------------------------------------------------------------------------------------------- *)
   (*  file_dict_name                                                                                *)
@@ -365,12 +391,73 @@ Section Model.
     match o with AddWord _ w => Some w | CrashAdd _ w _ => Some w | _ => None end.
 
   (* -------------------------------------------------------------------------------------------- *)
+  (*  Backend::update_document keeps one linter per open document and rebuilds it only when the      *)
+  (*  child hashes of the freshly loaded MergedDictionary differ from those it was built with        *)
+  (*  (doc_state.base_dict != dict).  The curated child hashes to the constant 1.                    *)
+  (* -------------------------------------------------------------------------------------------- *)
+  Definition url_eqb (a b : url) : bool :=
+    match a, b with
+    | FileUrl p, FileUrl q => weqb p q
+    | Untitled p, Untitled q => weqb p q
+    | _, _ => false
+    end.
+  (* url -> the children the document's linter was built with *)
+  Definition cache := list (url * list dict).
+  Fixpoint cache_get (u : url) (c : cache) : option (list dict) :=
+    match c with
+    | [] => None
+    | (u', cs) :: t => if url_eqb u u' then Some cs else cache_get u t
+    end.
+  Definition cache_set (u : url) (cs : list dict) (c : cache) : cache :=
+    (u, cs) :: filter (fun e => negb (url_eqb u (fst e))) c.
+  (* MergedDictionary == : the vectors of child hashes are equal; the first child is the curated dictionary *)
+  Definition hashes_eqb (a b : list dict) : bool :=
+    match a, b with
+    | [_; ua; fa], [_; ub; fb] =>
+        child_hash_eqb (child_words ua) (child_words ub) && child_hash_eqb (child_words fa) (child_words fb)
+    | _, _ => false
+    end.
+  (* the children the check of document u is made with, and the cache afterwards *)
+  Definition cached_children (c : cache) (s : fsys) (u : url) : list dict :=
+    let fresh := children s u in
+    match cache_get u c with
+    | Some old => if hashes_eqb old fresh then old else fresh
+    | None => fresh
+    end.
+  Definition step_op_cached (st : fsys * cache) (o : op) : (fsys * cache) * list bool :=
+    let (s, c) := st in
+    match o with
+    | LintDoc u toks =>
+        let cs := cached_children c s u in
+        ((s, cache_set u cs c), map (fun t => negb (accepted cs t)) toks)
+    | Restart => ((s, []), [])
+    | CrashAdd _ _ _ => ((fst (step_op s o), []), [])      (* the process died: a new server starts *)
+    | AddWord _ _ => ((fst (step_op s o), c), [])
+    end.
+  Fixpoint run_cached (st : fsys * cache) (h : list op) : (fsys * cache) * list (list bool) :=
+    match h with
+    | [] => (st, [])
+    | o :: r => let (st', out) := step_op_cached st o in
+                let (st'', outs) := run_cached st' r in (st'', out :: outs)
+    end.
+
+  (* -------------------------------------------------------------------------------------------- *)
   (*  harper_wasm::Linter: user_dictionary + the dictionary the LintGroup was built with            *)
   (* -------------------------------------------------------------------------------------------- *)
   Record wasm := mkwasm { w_user : dict; w_lint : dict }.
   Definition wasm_new : wasm := mkwasm [] [].
-  (* import_words: extend; synchronize_lint_dict only when word_count grew *)
+  (* HashMap == (MutableDictionary derives PartialEq over its WordMap): same number of entries and every
+     entry of the one is found, equal, in the other *)
+  Definition entry_eqb (a b : entry) : bool := weqb (fst a) (fst b) && Bool.eqb (snd a) (snd b).
+  Definition dict_same (a b : dict) : bool :=
+    Nat.eqb (length a) (length b) &&
+    forallb (fun kv => match lookup (fst kv) b with Some e => entry_eqb (snd kv) e | None => false end) a.
+  (* import_words (ba0a239): clone; extend; synchronize_lint_dict when user_dictionary != before *)
   Definition import_words (st : wasm) (ws : list word) : wasm :=
+    let u' := extend_words (w_user st) ws in
+    if dict_same u' (w_user st) then mkwasm u' (w_lint st) else mkwasm u' u'.
+  (* before ba0a239: synchronize_lint_dict only when word_count grew *)
+  Definition import_words_old (st : wasm) (ws : list word) : wasm :=
     let u' := extend_words (w_user st) ws in
     if length (w_user st) <? length u' then mkwasm u' u' else mkwasm u' (w_lint st).
   Definition export_words (st : wasm) : list word := words_iter (w_user st).
@@ -403,8 +490,21 @@ Definition x_load (tb : ctable) (t : text) : list word :=
 
 Definition x_name (p : list N) : list N := mangle (components p).
 
-Definition x_run (tb : ctable) (cur : list entry) (s : fsys) (h : list op) : fsys * list (list bool) :=
-  run (tb_is_lower tb) (tb_lower tb) (mk_curated tb cur) id_order s h.
+(* the iteration order of the hash map is not observable before the write; the driver proposes one
+   that is consistent with what was found on disk afterwards, the model only accepts a permutation
+   (perm_ofb, above) and otherwise keeps its own order *)
+Definition proposed_order (prop : list word) (l : list word) : list word :=
+  if perm_ofb prop l then prop else l.
+(* the server with its per-document linter cache (DictIOProofs.cache_transparent: same outputs as `run`);
+   the hash map iterates in the proposed order *)
+Definition x_run (tb : ctable) (cur : list entry) (order : list word) (st : fsys * cache) (h : list op)
+    : (fsys * cache) * list (list bool) :=
+  run_cached (tb_is_lower tb) (tb_lower tb) (mk_curated tb cur) (proposed_order order) st h.
+
+(* MergedDictionary == on [curated; d1] and [curated; d2], d_i = extend_words of a word list *)
+Definition x_merge_eq (tb : ctable) (ws1 ws2 : list word) : bool :=
+  child_hash_eqb (child_words id_order (extend_words (tb_is_lower tb) (tb_lower tb) [] ws1))
+                 (child_words id_order (extend_words (tb_is_lower tb) (tb_lower tb) [] ws2)).
 
 Definition x_words_at (tb : ctable) (p : path) (s : fsys) : option (list word) :=
   match load_dict (tb_is_lower tb) (tb_lower tb) p s with
@@ -426,37 +526,29 @@ Definition ocontent_eqb (a b : option content) : bool :=
   end.
 
 (* ---- crash observations ------------------------------------------------------------------------ *)
-(* a crash leaves the target file as it was, or (after File::create) holding a prefix of the new
-   serialisation: whole characters, or whole characters and a cut multi-byte one.
-   DictIOProofs.crash_possibleb_spec: this is exactly the set of contents over crash_states. *)
 Fixpoint strip_prefix (a b : text) : option text :=
   match a, b with
   | [], _ => Some b
   | x :: a', y :: b' => if N.eqb x y then strip_prefix a' b' else None
   | _ :: _, [] => None
   end.
-Definition crash_possibleb (old : option content) (total : text) (obs : option content) : bool :=
+(* a file that is created (truncated) and then written from a BufWriter, after a crash: as it was, or
+   holding a prefix of the new text: whole characters, or whole characters and a cut multi-byte one.
+   (This was the fate of the DICTIONARY before 87b8642; now it is the fate of the temporary sibling.) *)
+Definition partial_possibleb (old : option content) (total : text) (obs : option content) : bool :=
   ocontent_eqb obs old ||
   match obs with
   | Some (Clean t) => match strip_prefix t total with Some _ => true | None => false end
   | Some (Torn t) => match strip_prefix t total with Some (c :: _) => negb (c <? 128)%N | _ => false end
   | None => false
   end.
-
-(* the iteration order of the hash map is not observable before the write; the driver proposes one
-   that is consistent with what was found on disk, the model only accepts a permutation *)
-Fixpoint remove_one (w : word) (l : list word) : option (list word) :=
-  match l with
-  | [] => None
-  | x :: r => if weqb w x then Some r else match remove_one w r with Some r' => Some (x :: r') | None => None end
-  end.
-Fixpoint perm_ofb (a b : list word) : bool :=
-  match a with
-  | [] => match b with [] => true | _ => false end
-  | x :: a' => match remove_one x b with Some b' => perm_ofb a' b' | None => false end
-  end.
-Definition proposed_order (prop : list word) (l : list word) : list word :=
-  if perm_ofb prop l then prop else l.
+(* save_dict as written now, the dictionary file and its temporary sibling after a crash:
+     the dictionary as it was and the sibling as it was or partially written   (killed before the rename), or
+     the dictionary holds the complete new text and the sibling is gone        (killed after it).
+   DictIOProofs.crash_possibleb_spec: this is exactly the set of observations over crash_states. *)
+Definition crash_possibleb (old oldtmp : option content) (total : text) (obs obstmp : option content) : bool :=
+  (ocontent_eqb obs old && partial_possibleb oldtmp total obstmp) ||
+  (ocontent_eqb obs (Some (Clean total)) && ocontent_eqb obstmp None).
 
 (* the words the add of w is about to write, in model order *)
 Definition x_add_words (tb : ctable) (sc : scope) (w : word) (s : fsys) : list word :=
@@ -464,18 +556,32 @@ Definition x_add_words (tb : ctable) (sc : scope) (w : word) (s : fsys) : list w
   | Some p => words_of (append_word (tb_is_lower tb) (tb_lower tb) (dict_at (tb_is_lower tb) (tb_lower tb) p s) w)
   | None => []
   end.
-(* is `obs` a possible content of the target after a crash of this add, when the map iterates in `order`? *)
-Definition x_crash_ok (tb : ctable) (order : list word) (sc : scope) (w : word) (s : fsys) (obs : option content) : bool :=
+(* are `obs` / `obstmp` possible contents of the target / of its temporary sibling after a crash of this add,
+   when the map iterates in `order`? *)
+Definition x_crash_ok (tb : ctable) (order : list word) (sc : scope) (w : word) (s : fsys)
+    (obs obstmp : option content) : bool :=
   match target sc with
-  | Some p => crash_possibleb (fs_read p s)
+  | Some p => crash_possibleb (fs_read p s) (fs_read (TmpP p) s)
                 (serialize (words_iter (proposed_order order)
-                   (append_word (tb_is_lower tb) (tb_lower tb) (dict_at (tb_is_lower tb) (tb_lower tb) p s) w))) obs
+                   (append_word (tb_is_lower tb) (tb_lower tb) (dict_at (tb_is_lower tb) (tb_lower tb) p s) w))) obs obstmp
   | None => false
   end.
-Definition x_crash_state (sc : scope) (s : fsys) (obs : option content) : fsys :=
-  match target sc, obs with
-  | Some p, Some c => fs_write p c s
-  | _, _ => s
+Definition fs_set (p : path) (oc : option content) (s : fsys) : fsys :=
+  match oc with
+  | Some c => fs_write p c s
+  | None => mkfs (dirs s) (assoc_del p (files s))
+  end.
+(* the history goes on from what was found on disk *)
+Definition x_crash_state (sc : scope) (s : fsys) (obs obstmp : option content) : fsys :=
+  match target sc with
+  | Some p => fs_set (TmpP p) obstmp (fs_set p obs s)
+  | None => s
+  end.
+(* a dictionary file written by hand *)
+Definition x_seed_state (sc : scope) (s : fsys) (c : content) : fsys :=
+  match target sc with
+  | Some p => fs_write p c s
+  | None => s
   end.
 
 Inductive wop := WImport (ws : list word) | WLint (toks : list word) | WExport.
